@@ -153,7 +153,16 @@ type EnvelopeInfo struct {
 
 // ReadEnvelope parses [sig, {h, tag: payload}] (exactly that shape).
 func ReadEnvelope(v V) (*EnvelopeInfo, error) {
-	if v.K != KList || len(v.L) != 2 || v.L[0].K != KBytes || v.L[1].K != KMap || len(v.L[1].M) != 2 {
+	if v.K != KList || len(v.L) != 2 {
+		return nil, errors.New("not an envelope")
+	}
+	return ReadEnvelopeLenient(v)
+}
+
+// ReadEnvelopeLenient reads the signature and the signed part from the first two list
+// elements and ignores further (unsigned) elements.
+func ReadEnvelopeLenient(v V) (*EnvelopeInfo, error) {
+	if v.K != KList || len(v.L) < 2 || v.L[0].K != KBytes || v.L[1].K != KMap || len(v.L[1].M) != 2 {
 		return nil, errors.New("not an envelope")
 	}
 	info := &EnvelopeInfo{Sig: v.L[0].Y}
@@ -183,7 +192,7 @@ func ReadEnvelope(v V) (*EnvelopeInfo, error) {
 // under the key in the payload's iss and the scheme announced by the header, over the
 // canonical encoding of the decoded {h, tag: payload}.
 func VerifyEnvelope(v V) (*EnvelopeInfo, error) {
-	info, err := ReadEnvelope(v)
+	info, err := ReadEnvelopeLenient(v)
 	if err != nil {
 		return nil, err
 	}
